@@ -69,4 +69,16 @@ Section Conserve.
       f_equal. unfold keptb. cbn [andb].
       apply one_sample; [exact Hnd|]. intros x Hx. apply (Hcov s x); [left; reflexivity|exact Hx].
   Qed.
+
+  (* an entry that occurs in every sample (the common root) has cum = the sum of all values *)
+  Theorem cum_of_common_entry_lemma : forall div ss r,
+    (forall s, In s ss -> memK K keqb r (keys K s) = true) ->
+    cum_spec K keqb div None ss r = sumf K (pick K div) ss.
+  Proof.
+    intros div ss r H. unfold cum_spec, sumf. induction ss as [|s rest IH]; cbn [fold_right]; [reflexivity|].
+    rewrite IH by (intros s0 H0; apply H; right; exact H0).
+    unfold vis. replace (filter (keptb K keqb None) (keys K s)) with (keys K s).
+    - rewrite (H s (or_introl eq_refl)). reflexivity.
+    - unfold keptb. induction (keys K s) as [|x l IHl]; cbn [filter]; [reflexivity|]. rewrite <- IHl. reflexivity.
+  Qed.
 End Conserve.
